@@ -39,6 +39,7 @@ macro_rules
       | exact PresAt.genRng $ih _ _ _ _ _ _ _ _ _ _ _
       | exact Pres.sliceOf _ _
       | exact Pres.pipeArgs _
+      | exact Pres.dimValue _ _
       | exact Pres.rangeDeref _ _
       | exact Pres.sliceDeref _ _
       | exact Pres.rngLoopInit _
@@ -47,6 +48,7 @@ macro_rules
       | exact Pres.getInt _
       | exact Pres.liftOp _
       | exact Pres.binopM _ _ _
+      | exact Pres.unopM _ _
       | exact Pres.truthy _
       | exact Pres.convCell _ _
       | exact Pres.convCells _ _
